@@ -12,7 +12,12 @@ of the checker has it whenever the checker reports nothing.
 * shape (`assignIndexEmpty`): the target of an index assignment is an index expression;
 * literals (`numLit`): every number lexeme satisfies `C.numOk`.
 The last two are properties of the PARSER's output that the checker preserves: they are assumed of
-the checker's input (`srcBlock`).
+the checker's input (`srcBlock`; proved of the lexer + parser models in `Lemmas/BridgeSource.lean`).
+Both are switchable (`numOk := fun _ => true`, `strictIdx := false`: nothing assumed, `src_lax`), so
+that the sites they close can be left open instead.
+* plan (`fnById`): a call outside the bodies of functions the optimisation plan removes is bound to
+  a function the plan keeps.  `resolve_ok` is about `plan := none`; `ok_plan_block` adds a plan under
+  the decidable side condition `keptBlock plan`.
 -/
 namespace NaijaVerif.Bridge
 open NaijaVerif NaijaVerif.Resolve
@@ -22,6 +27,10 @@ structure SCfg where
   arity : List Nat
   /-- the number lexemes that `NumOps.ofLit` accepts -/
   numOk : Bytes → Bool
+  /-- whether the target of an index assignment is required to be an index expression -/
+  strictIdx : Bool
+  /-- the optimisation plan the program is run with: calls in code that is kept go to kept functions -/
+  plan : Option Eval.Plan := none
 
 def SCfg.fnOk (C : SCfg) (fn : Option Nat) (n : Nat) : Bool :=
   match fn with
@@ -44,7 +53,8 @@ mutual
     | .call (.member obj _ _ _) args _ _ => okExpr C obj && okExprs C args
     | .call (.var name _ _) args fn _ =>
         okExprs C args &&
-          (if (Eval.GlobalB.ofName name).isSome then args.length == 1 else C.fnOk fn args.length)
+          (if (Eval.GlobalB.ofName name).isSome then args.length == 1
+           else C.fnOk fn args.length && !Eval.Plan.prunesFn C.plan fn)
     | .call _ args _ _ => okExprs C args
   def okExprs (C : SCfg) : List Expr → Bool
     | [] => true
@@ -56,11 +66,11 @@ mutual
   def okStmt (C : SCfg) (d : Bool) : Stmt → Bool
     | .assign _ _ e _ _ _ => okExpr C e
     | .assignExisting _ _ e _ _ _ => okExpr C e
-    | .assignIndex t e _ _ => okExpr C t && okExpr C e && isIndexExpr t
+    | .assignIndex t e _ _ => okExpr C t && okExpr C e && (!C.strictIdx || isIndexExpr t)
     | .ifS c t e _ _ => okExpr C c && okBlock C d t && okOptBlock C d e
     | .loop c b _ _ => okExpr C c && okBlock C true b
     | .block b _ _ => okBlock C d b
-    | .fnDef _ _ ps body fn _ _ => C.fnOk fn ps.length && okBlock C false body
+    | .fnDef _ _ ps body fn _ _ => C.fnOk fn ps.length && (Eval.Plan.prunesFn C.plan fn || okBlock C false body)
     | .ret (some e) _ _ => okExpr C e
     | .ret none _ _ => true
     | .brk _ _ => d
@@ -79,43 +89,136 @@ end
 /-! ### What is assumed of the checker's input (guarantees of scanner and parser) -/
 
 mutual
-  def srcExpr (numOk : Bytes → Bool) : Expr → Bool
-    | .num lex _ => numOk lex
+  def srcExpr (C : SCfg) : Expr → Bool
+    | .num lex _ => C.numOk lex
     | .bool _ _ | .null _ | .str _ _ | .var _ _ _ => true
-    | .binary _ l r _ => srcExpr numOk l && srcExpr numOk r
-    | .unary _ x _ => srcExpr numOk x
-    | .array es _ => srcExprs numOk es
-    | .index a i _ _ => srcExpr numOk a && srcExpr numOk i
-    | .member o _ _ _ => srcExpr numOk o
-    | .call c args _ _ => srcExpr numOk c && srcExprs numOk args
-  def srcExprs (numOk : Bytes → Bool) : List Expr → Bool
+    | .binary _ l r _ => srcExpr C l && srcExpr C r
+    | .unary _ x _ => srcExpr C x
+    | .array es _ => srcExprs C es
+    | .index a i _ _ => srcExpr C a && srcExpr C i
+    | .member o _ _ _ => srcExpr C o
+    | .call c args _ _ => srcExpr C c && srcExprs C args
+  def srcExprs (C : SCfg) : List Expr → Bool
     | [] => true
-    | e :: es => srcExpr numOk e && srcExprs numOk es
+    | e :: es => srcExpr C e && srcExprs C es
 end
 
 mutual
-  def srcStmt (numOk : Bytes → Bool) : Stmt → Bool
-    | .assign _ _ e _ _ _ => srcExpr numOk e
-    | .assignExisting _ _ e _ _ _ => srcExpr numOk e
-    | .assignIndex t e _ _ => srcExpr numOk t && srcExpr numOk e && isIndexExpr t
-    | .ifS c t e _ _ => srcExpr numOk c && srcBlock numOk t && srcOptBlock numOk e
-    | .loop c b _ _ => srcExpr numOk c && srcBlock numOk b
-    | .block b _ _ => srcBlock numOk b
-    | .fnDef _ _ _ body _ _ _ => srcBlock numOk body
-    | .ret (some e) _ _ => srcExpr numOk e
+  def srcStmt (C : SCfg) : Stmt → Bool
+    | .assign _ _ e _ _ _ => srcExpr C e
+    | .assignExisting _ _ e _ _ _ => srcExpr C e
+    | .assignIndex t e _ _ => srcExpr C t && srcExpr C e && (!C.strictIdx || isIndexExpr t)
+    | .ifS c t e _ _ => srcExpr C c && srcBlock C t && srcOptBlock C e
+    | .loop c b _ _ => srcExpr C c && srcBlock C b
+    | .block b _ _ => srcBlock C b
+    | .fnDef _ _ _ body _ _ _ => srcBlock C body
+    | .ret (some e) _ _ => srcExpr C e
     | .ret none _ _ => true
     | .brk _ _ => true
     | .cont _ _ => true
-    | .expr e _ _ => srcExpr numOk e
-  def srcStmts (numOk : Bytes → Bool) : List Stmt → Bool
+    | .expr e _ _ => srcExpr C e
+  def srcStmts (C : SCfg) : List Stmt → Bool
     | [] => true
-    | s :: rest => srcStmt numOk s && srcStmts numOk rest
-  def srcBlock (numOk : Bytes → Bool) : Block → Bool
-    | .mk ss _ => srcStmts numOk ss
-  def srcOptBlock (numOk : Bytes → Bool) : Option Block → Bool
+    | s :: rest => srcStmt C s && srcStmts C rest
+  def srcBlock (C : SCfg) : Block → Bool
+    | .mk ss _ => srcStmts C ss
+  def srcOptBlock (C : SCfg) : Option Block → Bool
     | none => true
-    | some b => srcBlock numOk b
+    | some b => srcBlock C b
 end
+
+/-- The source predicates do not read the arity table. -/
+def SCfg.same (C C' : SCfg) : Prop := C.numOk = C'.numOk ∧ C.strictIdx = C'.strictIdx
+
+mutual
+  theorem srcExpr_congr (C C' : SCfg) (h : C.same C') : ∀ e : Expr, srcExpr C e = srcExpr C' e
+    | .num lex _ => by simp [srcExpr, h.1]
+    | .bool _ _ => by simp [srcExpr]
+    | .null _ => by simp [srcExpr]
+    | .str _ _ => by simp [srcExpr]
+    | .var _ _ _ => by simp [srcExpr]
+    | .binary _ l r _ => by simp [srcExpr, srcExpr_congr C C' h l, srcExpr_congr C C' h r]
+    | .unary _ x _ => by simp [srcExpr, srcExpr_congr C C' h x]
+    | .array es _ => by simp [srcExpr, srcExprs_congr C C' h es]
+    | .index a i _ _ => by simp [srcExpr, srcExpr_congr C C' h a, srcExpr_congr C C' h i]
+    | .member o _ _ _ => by simp [srcExpr, srcExpr_congr C C' h o]
+    | .call c args _ _ => by simp [srcExpr, srcExpr_congr C C' h c, srcExprs_congr C C' h args]
+  theorem srcExprs_congr (C C' : SCfg) (h : C.same C') : ∀ es : List Expr, srcExprs C es = srcExprs C' es
+    | [] => by simp [srcExprs]
+    | e :: es => by simp [srcExprs, srcExpr_congr C C' h e, srcExprs_congr C C' h es]
+end
+
+mutual
+  theorem srcStmt_congr (C C' : SCfg) (h : C.same C') : ∀ s : Stmt, srcStmt C s = srcStmt C' s
+    | .assign _ _ e _ _ _ => by simp [srcStmt, srcExpr_congr C C' h e]
+    | .assignExisting _ _ e _ _ _ => by simp [srcStmt, srcExpr_congr C C' h e]
+    | .assignIndex t e _ _ => by simp [srcStmt, srcExpr_congr C C' h t, srcExpr_congr C C' h e, h.2]
+    | .ifS c t e _ _ => by
+        simp [srcStmt, srcExpr_congr C C' h c, srcBlock_congr C C' h t, srcOptBlock_congr C C' h e]
+    | .loop c b _ _ => by simp [srcStmt, srcExpr_congr C C' h c, srcBlock_congr C C' h b]
+    | .block b _ _ => by simp [srcStmt, srcBlock_congr C C' h b]
+    | .fnDef _ _ _ body _ _ _ => by simp [srcStmt, srcBlock_congr C C' h body]
+    | .ret (some e) _ _ => by simp [srcStmt, srcExpr_congr C C' h e]
+    | .ret none _ _ => by simp [srcStmt]
+    | .brk _ _ => by simp [srcStmt]
+    | .cont _ _ => by simp [srcStmt]
+    | .expr e _ _ => by simp [srcStmt, srcExpr_congr C C' h e]
+  theorem srcStmts_congr (C C' : SCfg) (h : C.same C') : ∀ ss : List Stmt, srcStmts C ss = srcStmts C' ss
+    | [] => by simp [srcStmts]
+    | s :: ss => by simp [srcStmts, srcStmt_congr C C' h s, srcStmts_congr C C' h ss]
+  theorem srcBlock_congr (C C' : SCfg) (h : C.same C') : ∀ b : Block, srcBlock C b = srcBlock C' b
+    | .mk ss _ => by simp [srcBlock, srcStmts_congr C C' h ss]
+  theorem srcOptBlock_congr (C C' : SCfg) (h : C.same C') : ∀ b : Option Block, srcOptBlock C b = srcOptBlock C' b
+    | none => by simp [srcOptBlock]
+    | some b => by simp [srcOptBlock, srcBlock_congr C C' h b]
+end
+
+theorem srcBlock_arity (C : SCfg) (T : List Nat) (q : Block) :
+    srcBlock ⟨[], C.numOk, C.strictIdx, none⟩ q = true ↔ srcBlock ⟨T, C.numOk, C.strictIdx, none⟩ q = true := by
+  rw [srcBlock_congr ⟨[], C.numOk, C.strictIdx, none⟩ ⟨T, C.numOk, C.strictIdx, none⟩ ⟨rfl, rfl⟩]
+
+/-- Nothing is required of the source when every lexeme is accepted and index targets are free. -/
+theorem src_lax (T : List Nat) :
+    (∀ e, srcExpr ⟨T, fun _ => true, false, none⟩ e = true) ∧ (∀ b, srcBlock ⟨T, fun _ => true, false, none⟩ b = true) := by
+  have hE : ∀ e : Expr, srcExpr ⟨T, fun _ => true, false, none⟩ e = true ∧ True := by
+    intro e
+    induction e using Expr.rec (motive_2 := fun es => srcExprs ⟨T, fun _ => true, false, none⟩ es = true ∧ True) with
+    | nil => exact ⟨by simp [srcExprs], trivial⟩
+    | cons e es ih1 ih2 => exact ⟨by simp [srcExprs, ih1.1, ih2.1], trivial⟩
+    | num => exact ⟨by simp [srcExpr], trivial⟩
+    | bool => exact ⟨by simp [srcExpr], trivial⟩
+    | null => exact ⟨by simp [srcExpr], trivial⟩
+    | str => exact ⟨by simp [srcExpr], trivial⟩
+    | var => exact ⟨by simp [srcExpr], trivial⟩
+    | binary _ _ _ _ ih1 ih2 => exact ⟨by simp [srcExpr, ih1.1, ih2.1], trivial⟩
+    | unary _ _ _ ih => exact ⟨by simp [srcExpr, ih.1], trivial⟩
+    | array _ _ ih => exact ⟨by simp [srcExpr, ih.1], trivial⟩
+    | index _ _ _ _ ih1 ih2 => exact ⟨by simp [srcExpr, ih1.1, ih2.1], trivial⟩
+    | member _ _ _ _ ih => exact ⟨by simp [srcExpr, ih.1], trivial⟩
+    | call _ _ _ _ ih1 ih2 => exact ⟨by simp [srcExpr, ih1.1, ih2.1], trivial⟩
+  refine ⟨fun e => (hE e).1, ?_⟩
+  intro b
+  induction b using Block.rec (motive_1 := fun s => srcStmt ⟨T, fun _ => true, false, none⟩ s = true)
+    (motive_4 := fun ss => srcStmts ⟨T, fun _ => true, false, none⟩ ss = true)
+    (motive_3 := fun ob => srcOptBlock ⟨T, fun _ => true, false, none⟩ ob = true) with
+  | fnDef _ _ _ _ _ _ _ ih => simp [srcStmt, ih]
+  | assign _ _ e => simp [srcStmt, (hE e).1]
+  | assignExisting _ _ e => simp [srcStmt, (hE e).1]
+  | assignIndex t e => simp [srcStmt, (hE t).1, (hE e).1]
+  | ifS c _ _ _ _ ih1 ih2 => simp [srcStmt, (hE c).1, ih1, ih2]
+  | loop c _ _ _ ih => simp [srcStmt, (hE c).1, ih]
+  | block _ _ _ ih => simp [srcStmt, ih]
+  | ret e => cases e with
+    | none => simp [srcStmt]
+    | some e => simp [srcStmt, (hE e).1]
+  | brk => simp [srcStmt]
+  | cont => simp [srcStmt]
+  | expr e => simp [srcStmt, (hE e).1]
+  | mk _ _ ih => simp [srcBlock, ih]
+  | nil => simp [srcStmts]
+  | cons _ _ ih1 ih2 => simp [srcStmts, ih1, ih2]
+  | none => simp [srcOptBlock]
+  | some _ ih => simp [srcOptBlock, ih]
 
 /-! ### The parameter-count table -/
 
@@ -157,8 +260,8 @@ theorem isIndexExpr_check (env : Env) (cur : Scope) (sid : Nat) (t : Expr) (f : 
   simp [checkExpr, isIndexExpr]
 
 mutual
-  theorem checkExpr_ok (C : SCfg) (env : Env) (cur : Scope) (sid : Nat) (hs : SigsOK C.arity env.fns) :
-      ∀ (e : Expr) (f : Facts), srcExpr C.numOk e = true → (checkExpr env cur sid e f).ds = [] →
+  theorem checkExpr_ok (C : SCfg) (hpl : C.plan = none) (env : Env) (cur : Scope) (sid : Nat) (hs : SigsOK C.arity env.fns) :
+      ∀ (e : Expr) (f : Facts), srcExpr C e = true → (checkExpr env cur sid e f).ds = [] →
         okExpr C (checkExpr env cur sid e f).val = true
     | .num _ _, f, hsrc, _ => by simpa [checkExpr, okExpr, srcExpr] using hsrc
     | .bool _ _, f, _, _ => by simp [checkExpr, okExpr]
@@ -168,12 +271,12 @@ mutual
     | .array es _, f, hsrc, h => by
         simp only [checkExpr] at h ⊢
         simp only [okExpr]
-        exact checkExprs_ok C env cur sid hs es f (by simpa [srcExpr] using hsrc) h
+        exact checkExprs_ok C hpl env cur sid hs es f (by simpa [srcExpr] using hsrc) h
     | .index a i _ _, f, hsrc, h => by
         simp only [srcExpr, Bool.and_eq_true] at hsrc
         simp only [checkExpr, List.append_eq_nil_iff] at h ⊢
         simp only [okExpr, Bool.and_eq_true]
-        exact ⟨checkExpr_ok C env cur sid hs a f hsrc.1 h.1.1.1, checkExpr_ok C env cur sid hs i _ hsrc.2 h.1.1.2⟩
+        exact ⟨checkExpr_ok C hpl env cur sid hs a f hsrc.1 h.1.1.1, checkExpr_ok C hpl env cur sid hs i _ hsrc.2 h.1.1.2⟩
     | .var v _ s, f, _, h => by
         simp only [checkExpr]
         split <;> simp [okExpr]
@@ -181,12 +284,12 @@ mutual
         simp only [srcExpr, Bool.and_eq_true] at hsrc
         simp only [checkExpr, List.append_eq_nil_iff] at h ⊢
         simp only [okExpr, Bool.and_eq_true]
-        exact ⟨checkExpr_ok C env cur sid hs l f hsrc.1 h.1.1, checkExpr_ok C env cur sid hs r _ hsrc.2 h.1.2⟩
+        exact ⟨checkExpr_ok C hpl env cur sid hs l f hsrc.1 h.1.1, checkExpr_ok C hpl env cur sid hs r _ hsrc.2 h.1.2⟩
     | .unary _ e _, f, hsrc, h => by
         simp only [srcExpr] at hsrc
         simp only [checkExpr, List.append_eq_nil_iff] at h ⊢
         simp only [okExpr]
-        exact checkExpr_ok C env cur sid hs e f hsrc h.1
+        exact checkExpr_ok C hpl env cur sid hs e f hsrc h.1
     | .member o _ _ _, f, _, h => by simp [checkExpr] at h
     | .call callee args _ s, f, hsrc, h => by
         simp only [srcExpr, Bool.and_eq_true] at hsrc
@@ -203,7 +306,7 @@ mutual
               | true => simp [errIf, hc] at h1
               | false => simpa [GlobalB.arity] using hc
             simp only [okExpr, hg', if_true, Bool.and_eq_true, checkExprs_length, hlen, beq_self_eq_true, and_true]
-            exact checkExprs_ok C env cur sid hs args f hsrc.2 h.2
+            exact checkExprs_ok C hpl env cur sid hs args f hsrc.2 h.2
           | none =>
             have hg' : (Eval.GlobalB.ofName fname).isSome = false := by
               rw [← global_tables_agree, hg]; rfl
@@ -215,15 +318,16 @@ mutual
                 cases hc : (args.length != g.arity) with
                 | true => simp [errIf, hc] at h1
                 | false => simpa using hc
+              have hnp : Eval.Plan.prunesFn C.plan (some g.id) = false := by rw [hpl]; rfl
               simp only [okExpr, hg', Bool.false_eq_true, if_false, Bool.and_eq_true, SCfg.fnOk,
-                checkExprs_length, hlen, hs.lookup hl, beq_self_eq_true, and_true]
-              exact checkExprs_ok C env cur sid hs args _ hsrc.2 h.2
+                checkExprs_length, hlen, hs.lookup hl, beq_self_eq_true, and_true, hnp, Bool.not_false]
+              exact checkExprs_ok C hpl env cur sid hs args _ hsrc.2 h.2
             | none => simp [checkExpr, hg, hl] at h
         | member obj field fs ms =>
           simp only [srcExpr] at hsrc
           simp only [checkExpr, List.append_eq_nil_iff] at h ⊢
           simp only [okExpr, Bool.and_eq_true]
-          exact ⟨checkExpr_ok C env cur sid hs obj f hsrc.1 h.1.1, checkExprs_ok C env cur sid hs args _ hsrc.2 h.2⟩
+          exact ⟨checkExpr_ok C hpl env cur sid hs obj f hsrc.1 h.1.1, checkExprs_ok C hpl env cur sid hs args _ hsrc.2 h.2⟩
         | num _ _ => simp [checkExpr] at h
         | bool _ _ => simp [checkExpr] at h
         | null _ => simp [checkExpr] at h
@@ -233,15 +337,15 @@ mutual
         | binary _ _ _ _ => rw [checkExpr.eq_def] at h; simp at h
         | unary _ _ _ => rw [checkExpr.eq_def] at h; simp at h
         | call _ _ _ _ => rw [checkExpr.eq_def] at h; simp at h
-  theorem checkExprs_ok (C : SCfg) (env : Env) (cur : Scope) (sid : Nat) (hs : SigsOK C.arity env.fns) :
-      ∀ (es : List Expr) (f : Facts), srcExprs C.numOk es = true → (checkExprs env cur sid es f).ds = [] →
+  theorem checkExprs_ok (C : SCfg) (hpl : C.plan = none) (env : Env) (cur : Scope) (sid : Nat) (hs : SigsOK C.arity env.fns) :
+      ∀ (es : List Expr) (f : Facts), srcExprs C es = true → (checkExprs env cur sid es f).ds = [] →
         okExprs C (checkExprs env cur sid es f).val = true
     | [], f, _, _ => by simp [checkExprs, okExprs]
     | e :: es, f, hsrc, h => by
         simp only [srcExprs, Bool.and_eq_true] at hsrc
         simp only [checkExprs, List.append_eq_nil_iff] at h ⊢
         simp only [okExprs, Bool.and_eq_true]
-        exact ⟨checkExpr_ok C env cur sid hs e f hsrc.1 h.1, checkExprs_ok C env cur sid hs es _ hsrc.2 h.2⟩
+        exact ⟨checkExpr_ok C hpl env cur sid hs e f hsrc.1 h.1, checkExprs_ok C hpl env cur sid hs es _ hsrc.2 h.2⟩
 end
 
 /-! ### Statements and blocks -/
@@ -270,13 +374,13 @@ theorem defsArity_block {env2 : Env} {sigs : List FnSig} {rest : List (List FnSi
   exact pairs_unique (by rw [fnDefs_names]; exact hnd) h1 hmem
 
 mutual
-  theorem checkStmt_ok (C : SCfg) (env : Env) (cur : Cur) (hs : SigsOK C.arity env.fns) :
-      ∀ (s : Stmt) (f : Facts), srcStmt C.numOk s = true → DefsOK env cur.seenFns [s] → DefsArity env [s] →
+  theorem checkStmt_ok (C : SCfg) (hpl : C.plan = none) (env : Env) (cur : Cur) (hs : SigsOK C.arity env.fns) :
+      ∀ (s : Stmt) (f : Facts), srcStmt C s = true → DefsOK env cur.seenFns [s] → DefsArity env [s] →
         TLe (checkStmt env cur s f).facts C.arity →
         (checkStmt env cur s f).ds = [] → okStmt C (env.inLoop != 0) (checkStmt env cur s f).val = true
     | .assign x xs e _ _ sp, f, hsrc, _, _, _, h => by
         simp only [srcStmt] at hsrc
-        have hx := checkExpr_ok C env cur.vars f.stmtEffects.length hs e (pushStmt f env.owner env.scope) hsrc
+        have hx := checkExpr_ok C hpl env cur.vars f.stmtEffects.length hs e (pushStmt f env.owner env.scope) hsrc
         simp only [checkStmt] at h ⊢
         split at h <;> simp only [List.append_eq_nil_iff] at h <;> simp only [okStmt] <;> exact hx h.2
     | .assignExisting x xs e _ _ sp, f, hsrc, _, _, _, h => by
@@ -285,34 +389,38 @@ mutual
         | some ent =>
           simp only [checkStmt, hl] at h ⊢
           simp only [okStmt]
-          exact checkExpr_ok C env cur.vars _ hs e _ hsrc h
+          exact checkExpr_ok C hpl env cur.vars _ hs e _ hsrc h
         | none => simp [checkStmt, hl] at h
     | .assignIndex t e _ sp, f, hsrc, _, _, _, h => by
         simp only [srcStmt, Bool.and_eq_true] at hsrc
         simp only [checkStmt, List.append_eq_nil_iff] at h ⊢
         simp only [okStmt, Bool.and_eq_true]
-        exact ⟨⟨checkExpr_ok C env cur.vars _ hs t _ hsrc.1.1 h.1.1, checkExpr_ok C env cur.vars _ hs e _ hsrc.1.2 h.1.2⟩,
-          isIndexExpr_check _ _ _ _ _ hsrc.2⟩
+        refine ⟨⟨checkExpr_ok C hpl env cur.vars _ hs t _ hsrc.1.1 h.1.1, checkExpr_ok C hpl env cur.vars _ hs e _ hsrc.1.2 h.1.2⟩, ?_⟩
+        cases hstrict : C.strictIdx with
+        | false => rfl
+        | true =>
+          have : isIndexExpr t = true := by simpa [hstrict] using hsrc.2
+          simp [isIndexExpr_check _ _ _ _ _ this]
     | .ifS c t e _ sp, f, hsrc, _, _, ht, h => by
         simp only [srcStmt, Bool.and_eq_true] at hsrc
         simp only [checkStmt, List.append_eq_nil_iff] at h ht ⊢
         simp only [okStmt, Bool.and_eq_true]
-        refine ⟨⟨checkExpr_ok C env cur.vars _ hs c _ hsrc.1.1 h.1.1.1, ?_⟩, ?_⟩
-        · exact checkBlock_ok C { env with vars := cur.vars :: env.vars } _ hs _ rfl t _ hsrc.1.2
+        refine ⟨⟨checkExpr_ok C hpl env cur.vars _ hs c _ hsrc.1.1 h.1.1.1, ?_⟩, ?_⟩
+        · exact checkBlock_ok C hpl { env with vars := cur.vars :: env.vars } _ hs _ rfl t _ hsrc.1.2
             (TLe.mono (checkOptBlock_grow _ _ _ _) ht) h.1.2
-        · exact checkOptBlock_ok C { env with vars := cur.vars :: env.vars } _ hs _ rfl e _ hsrc.2 ht h.2
+        · exact checkOptBlock_ok C hpl { env with vars := cur.vars :: env.vars } _ hs _ rfl e _ hsrc.2 ht h.2
     | .loop c b _ sp, f, hsrc, _, _, ht, h => by
         simp only [srcStmt, Bool.and_eq_true] at hsrc
         simp only [checkStmt, List.append_eq_nil_iff] at h ht ⊢
         simp only [okStmt, Bool.and_eq_true]
-        refine ⟨checkExpr_ok C env cur.vars _ hs c _ hsrc.1 h.1.1, ?_⟩
-        exact checkBlock_ok C { env with vars := cur.vars :: env.vars, inLoop := env.inLoop + 1 } _ hs true
+        refine ⟨checkExpr_ok C hpl env cur.vars _ hs c _ hsrc.1 h.1.1, ?_⟩
+        exact checkBlock_ok C hpl { env with vars := cur.vars :: env.vars, inLoop := env.inLoop + 1 } _ hs true
           (by simp) b _ hsrc.2 ht h.2
     | .block b _ sp, f, hsrc, _, _, ht, h => by
         simp only [srcStmt] at hsrc
         simp only [checkStmt] at h ht ⊢
         simp only [okStmt]
-        exact checkBlock_ok C { env with vars := cur.vars :: env.vars } _ hs _ rfl b _ hsrc ht h
+        exact checkBlock_ok C hpl { env with vars := cur.vars :: env.vars } _ hs _ rfl b _ hsrc ht h
     | .fnDef name nsp ps body a b sp, f, hsrc, hd, hda, ht, h => by
         simp only [srcStmt] at hsrc
         have hu : name ∉ cur.seenFns := hd.unseen name (by simp [fnNames])
@@ -331,8 +439,10 @@ mutual
             have hT : C.arity[g.id]? = some g.arity :=
               hs own (by rw [heq]; exact List.mem_cons_self) g (findFn_mem hg)
             have hlen := (declareParams_spec env.spanLen g.id pscope ps [] f3).2.2.1
-            simp only [okStmt, Bool.and_eq_true, SCfg.fnOk, hlen, hT, har, beq_self_eq_true, true_and]
-            exact checkBlock_ok C envB (some pscope) (by rw [hfB]; exact hs) false (by rw [hlB]; rfl) body _ hsrc ht h
+            simp only [okStmt, Bool.and_eq_true, SCfg.fnOk, hlen, hT, har, beq_self_eq_true, true_and,
+              Bool.or_eq_true]
+            right
+            exact checkBlock_ok C hpl envB (some pscope) (by rw [hfB]; exact hs) false (by rw [hlB]; rfl) body _ hsrc ht h
         · simp at ho
     | .ret e _ sp, f, hsrc, _, _, _, h => by
         cases e with
@@ -340,7 +450,7 @@ mutual
           simp only [srcStmt] at hsrc
           simp only [checkStmt, List.append_eq_nil_iff] at h ⊢
           simp only [okStmt]
-          exact checkExpr_ok C env cur.vars _ hs e _ hsrc h.2
+          exact checkExpr_ok C hpl env cur.vars _ hs e _ hsrc h.2
         | none => simp [checkStmt, okStmt]
     | .brk _ sp, f, _, _, _, _, h => by
         simp only [checkStmt] at h ⊢
@@ -358,9 +468,9 @@ mutual
         simp only [srcStmt] at hsrc
         simp only [checkStmt] at h ⊢
         simp only [okStmt]
-        exact checkExpr_ok C env cur.vars _ hs e _ hsrc h
-  theorem checkStmts_ok (C : SCfg) (env : Env) (hs : SigsOK C.arity env.fns) :
-      ∀ (ss : List Stmt) (cur : Cur) (f : Facts), srcStmts C.numOk ss = true → DefsOK env cur.seenFns ss →
+        exact checkExpr_ok C hpl env cur.vars _ hs e _ hsrc h
+  theorem checkStmts_ok (C : SCfg) (hpl : C.plan = none) (env : Env) (hs : SigsOK C.arity env.fns) :
+      ∀ (ss : List Stmt) (cur : Cur) (f : Facts), srcStmts C ss = true → DefsOK env cur.seenFns ss →
         DefsArity env ss → TLe (checkStmts env cur ss f).facts C.arity →
         (checkStmts env cur ss f).ds = [] → okStmts C (env.inLoop != 0) (checkStmts env cur ss f).val = true
     | [], cur, f, _, _, _, _, _ => by simp [checkStmts, okStmts]
@@ -369,15 +479,15 @@ mutual
         simp only [checkStmts, List.append_eq_nil_iff] at h ht ⊢
         simp only [okStmts, Bool.and_eq_true]
         refine ⟨?_, ?_⟩
-        · refine checkStmt_ok C env cur hs s f hsrc.1 hd.head ?_ (TLe.mono (checkStmts_grow _ _ _ _) ht) h.1
+        · refine checkStmt_ok C hpl env cur hs s f hsrc.1 hd.head ?_ (TLe.mono (checkStmts_grow _ _ _ _) ht) h.1
           intro name n hmem
           exact hda name n (by rw [fnDefs_cons]; exact List.mem_append_left _ hmem)
-        · refine checkStmts_ok C env hs ss _ _ hsrc.2 (hd.tail f) ?_ ht h.2
+        · refine checkStmts_ok C hpl env hs ss _ _ hsrc.2 (hd.tail f) ?_ ht h.2
           intro name n hmem
           exact hda name n (by rw [fnDefs_cons]; exact List.mem_append_right _ hmem)
-  theorem checkBlock_ok (C : SCfg) (env : Env) (parent : Option Nat) (hs : SigsOK C.arity env.fns)
+  theorem checkBlock_ok (C : SCfg) (hpl : C.plan = none) (env : Env) (parent : Option Nat) (hs : SigsOK C.arity env.fns)
       (d : Bool) (hd : d = (env.inLoop != 0)) :
-      ∀ (b : Block) (f : Facts), srcBlock C.numOk b = true → TLe (checkBlock env parent b f).facts C.arity →
+      ∀ (b : Block) (f : Facts), srcBlock C b = true → TLe (checkBlock env parent b f).facts C.arity →
         (checkBlock env parent b f).ds = [] → okBlock C d (checkBlock env parent b f).val = true
     | .mk ss sp, f, hsrc, ht, h => by
         simp only [srcBlock] at hsrc
@@ -404,13 +514,13 @@ mutual
               exact ht _ _ (hsgrow.get c)
           · exact hs s hs' g hg
         simp only [okBlock]
-        have := checkStmts_ok C { env1 with fns := sigs :: env.fns } hs2 ss {} (predeclare env1 ss [] f2).facts hsrc
+        have := checkStmts_ok C hpl { env1 with fns := sigs :: env.fns } hs2 ss {} (predeclare env1 ss [] f2).facts hsrc
           (defsOK_block rfl hn hnd) (defsArity_block rfl hkeys hnd) ht h.2
         rw [hd, ← hloop]
         exact this
-  theorem checkOptBlock_ok (C : SCfg) (env : Env) (parent : Option Nat) (hs : SigsOK C.arity env.fns)
+  theorem checkOptBlock_ok (C : SCfg) (hpl : C.plan = none) (env : Env) (parent : Option Nat) (hs : SigsOK C.arity env.fns)
       (d : Bool) (hd : d = (env.inLoop != 0)) :
-      ∀ (b : Option Block) (f : Facts), srcOptBlock C.numOk b = true →
+      ∀ (b : Option Block) (f : Facts), srcOptBlock C b = true →
         TLe (checkOptBlock env parent b f).facts C.arity →
         (checkOptBlock env parent b f).ds = [] → okOptBlock C d (checkOptBlock env parent b f).val = true
     | none, f, _, _, _ => by simp [checkOptBlock, okOptBlock]
@@ -418,21 +528,233 @@ mutual
         simp only [srcOptBlock] at hsrc
         simp only [checkOptBlock] at h ht ⊢
         simp only [okOptBlock]
-        exact checkBlock_ok C env parent hs d hd b f hsrc ht h
+        exact checkBlock_ok C hpl env parent hs d hd b f hsrc ht h
 end
 
 /-- The table of the facts the resolver ends with. -/
 def arityTable (r : Resolved) : List Nat := (fkey r.facts).2
 
-/-- **An accepted program has the static guarantees** the evaluator's residual sites rely on —
-provided its number lexemes are accepted by `numOk` and its index assignments have an index (the
-parser's and the scanner's guarantees, `srcBlock`). -/
-theorem resolve_ok (spanLen : Bool) (numOk : Bytes → Bool) (q : Block) (hsrc : srcBlock numOk q = true)
-    (h : (resolveWith spanLen q).rdiags = []) :
-    okBlock ⟨arityTable (resolveWith spanLen q), numOk⟩ false (resolveWith spanLen q).root = true := by
-  refine checkBlock_ok ⟨arityTable (resolveWith spanLen q), numOk⟩ (rootEnv spanLen) none ?_ false rfl q rootFacts
-    hsrc ?_ h
+/-- **An accepted program has the static guarantees** the evaluator's residual sites rely on, for
+the table of parameter counts the resolver ends with — provided its number lexemes are accepted by
+`numOk` and (if `strictIdx`) its index assignments have an index (guarantees of scanner and parser,
+`srcBlock`). -/
+theorem resolve_ok (spanLen : Bool) (numOk : Bytes → Bool) (strictIdx : Bool) (q : Block)
+    (hsrc : srcBlock ⟨[], numOk, strictIdx, none⟩ q = true) (h : (resolveWith spanLen q).rdiags = []) :
+    okBlock ⟨arityTable (resolveWith spanLen q), numOk, strictIdx, none⟩ false (resolveWith spanLen q).root = true := by
+  refine checkBlock_ok ⟨arityTable (resolveWith spanLen q), numOk, strictIdx, none⟩ rfl (rootEnv spanLen) none ?_ false
+    rfl q rootFacts ?_ ?_ h
   · intro s hs; cases hs
+  · exact (srcBlock_arity ⟨[], numOk, strictIdx, none⟩ _ q).1 hsrc
   · intro i n hi; exact hi
+
+/-! ### The optimisation plan
+
+`resolve_ok` is about the program as such (`plan := none`).  A run with a plan that removes
+functions needs, in addition, that the code that is KEPT calls kept functions only: `keptBlock`, a
+decidable check of the annotated program against the plan (the body of a removed function is
+exempt: it is never hoisted). -/
+
+mutual
+  def keptExpr (plan : Option Eval.Plan) : Expr → Bool
+    | .num _ _ | .bool _ _ | .null _ | .str _ _ | .var _ _ _ => true
+    | .binary _ l r _ => keptExpr plan l && keptExpr plan r
+    | .unary _ x _ => keptExpr plan x
+    | .array es _ => keptExprs plan es
+    | .index a i _ _ => keptExpr plan a && keptExpr plan i
+    | .member o _ _ _ => keptExpr plan o
+    | .call (.member obj _ _ _) args _ _ => keptExpr plan obj && keptExprs plan args
+    | .call (.var name _ _) args fn _ =>
+        keptExprs plan args && ((Eval.GlobalB.ofName name).isSome || !Eval.Plan.prunesFn plan fn)
+    | .call _ args _ _ => keptExprs plan args
+  def keptExprs (plan : Option Eval.Plan) : List Expr → Bool
+    | [] => true
+    | e :: es => keptExpr plan e && keptExprs plan es
+end
+
+mutual
+  def keptStmt (plan : Option Eval.Plan) : Stmt → Bool
+    | .assign _ _ e _ _ _ => keptExpr plan e
+    | .assignExisting _ _ e _ _ _ => keptExpr plan e
+    | .assignIndex t e _ _ => keptExpr plan t && keptExpr plan e
+    | .ifS c t e _ _ => keptExpr plan c && keptBlock plan t && keptOptBlock plan e
+    | .loop c b _ _ => keptExpr plan c && keptBlock plan b
+    | .block b _ _ => keptBlock plan b
+    | .fnDef _ _ _ body fn _ _ => Eval.Plan.prunesFn plan fn || keptBlock plan body
+    | .ret (some e) _ _ => keptExpr plan e
+    | .ret none _ _ => true
+    | .brk _ _ => true
+    | .cont _ _ => true
+    | .expr e _ _ => keptExpr plan e
+  def keptStmts (plan : Option Eval.Plan) : List Stmt → Bool
+    | [] => true
+    | s :: rest => keptStmt plan s && keptStmts plan rest
+  def keptBlock (plan : Option Eval.Plan) : Block → Bool
+    | .mk ss _ => keptStmts plan ss
+  def keptOptBlock (plan : Option Eval.Plan) : Option Block → Bool
+    | none => true
+    | some b => keptBlock plan b
+end
+
+/-- The configuration with another plan. -/
+def SCfg.withPlan (C : SCfg) (plan : Option Eval.Plan) : SCfg := ⟨C.arity, C.numOk, C.strictIdx, plan⟩
+
+theorem ok_plan_expr (C : SCfg) (plan : Option Eval.Plan) (e : Expr) :
+    okExpr (C.withPlan none) e = true → keptExpr plan e = true → okExpr (C.withPlan plan) e = true := by
+  induction e using Expr.rec (motive_2 := fun es =>
+      okExprs (C.withPlan none) es = true → keptExprs plan es = true → okExprs (C.withPlan plan) es = true) with
+  | nil => simp [okExprs]
+  | cons e es ih1 ih2 =>
+    rename_i h1 h2
+    simp only [okExprs, keptExprs, Bool.and_eq_true] at h1 h2 ⊢
+    exact ⟨ih1 h1.1 h2.1, ih2 h1.2 h2.2⟩
+  | num => intro h _; simpa [okExpr, SCfg.withPlan] using h
+  | bool => intro _ _; simp [okExpr]
+  | null => intro _ _; simp [okExpr]
+  | str => intro _ _; simp [okExpr]
+  | var => intro _ _; simp [okExpr]
+  | binary _ _ _ _ ih1 ih2 =>
+    intro h1 h2
+    simp only [okExpr, keptExpr, Bool.and_eq_true] at h1 h2 ⊢
+    exact ⟨ih1 h1.1 h2.1, ih2 h1.2 h2.2⟩
+  | unary _ _ _ ih =>
+    intro h1 h2
+    simp only [okExpr, keptExpr] at h1 h2 ⊢
+    exact ih h1 h2
+  | array _ _ ih =>
+    intro h1 h2
+    simp only [okExpr, keptExpr] at h1 h2 ⊢
+    exact ih h1 h2
+  | index _ _ _ _ ih1 ih2 =>
+    intro h1 h2
+    simp only [okExpr, keptExpr, Bool.and_eq_true] at h1 h2 ⊢
+    exact ⟨ih1 h1.1 h2.1, ih2 h1.2 h2.2⟩
+  | member _ _ _ _ ih =>
+    intro h1 h2
+    simp only [okExpr, keptExpr] at h1 h2 ⊢
+    exact ih h1 h2
+  | call callee args fn sp ih1 ih2 =>
+    intro h1 h2
+    cases callee with
+    | var name b vsp =>
+      simp only [okExpr, keptExpr, Bool.and_eq_true] at h1 h2 ⊢
+      refine ⟨ih2 h1.1 h2.1, ?_⟩
+      cases hg : (Eval.GlobalB.ofName name).isSome with
+      | true => simpa [hg] using h1.2
+      | false =>
+        have a1 := h1.2
+        have a2 := h2.2
+        simp only [hg, Bool.false_eq_true, if_false, Bool.and_eq_true, Bool.false_or] at a1 a2 ⊢
+        exact ⟨by simpa [SCfg.fnOk, SCfg.withPlan] using a1.1, by simpa [SCfg.withPlan] using a2⟩
+    | member obj f fs ms =>
+      simp only [okExpr, keptExpr, Bool.and_eq_true] at h1 h2 ih1 ⊢
+      exact ⟨ih1 h1.1 h2.1, ih2 h1.2 h2.2⟩
+    | num => simp only [okExpr, keptExpr] at h1 h2 ⊢; exact ih2 h1 h2
+    | bool => simp only [okExpr, keptExpr] at h1 h2 ⊢; exact ih2 h1 h2
+    | null => simp only [okExpr, keptExpr] at h1 h2 ⊢; exact ih2 h1 h2
+    | str => simp only [okExpr, keptExpr] at h1 h2 ⊢; exact ih2 h1 h2
+    | array => simp only [okExpr, keptExpr] at h1 h2 ⊢; exact ih2 h1 h2
+    | index => simp only [okExpr, keptExpr] at h1 h2 ⊢; exact ih2 h1 h2
+    | binary => simp only [okExpr, keptExpr] at h1 h2 ⊢; exact ih2 h1 h2
+    | unary => simp only [okExpr, keptExpr] at h1 h2 ⊢; exact ih2 h1 h2
+    | call => simp only [okExpr, keptExpr] at h1 h2 ⊢; exact ih2 h1 h2
+
+theorem ok_plan_block (C : SCfg) (plan : Option Eval.Plan) (b : Block) : ∀ d,
+    okBlock (C.withPlan none) d b = true → keptBlock plan b = true → okBlock (C.withPlan plan) d b = true := by
+  have hE := ok_plan_expr C plan
+  induction b using Block.rec
+    (motive_1 := fun s => ∀ d, okStmt (C.withPlan none) d s = true → keptStmt plan s = true →
+      okStmt (C.withPlan plan) d s = true)
+    (motive_4 := fun ss => ∀ d, okStmts (C.withPlan none) d ss = true → keptStmts plan ss = true →
+      okStmts (C.withPlan plan) d ss = true)
+    (motive_3 := fun ob => ∀ d, okOptBlock (C.withPlan none) d ob = true → keptOptBlock plan ob = true →
+      okOptBlock (C.withPlan plan) d ob = true) with
+  | fnDef _ _ ps body fn _ _ ih =>
+    rename_i d h1 h2
+    simp only [okStmt, keptStmt, Bool.and_eq_true, Bool.or_eq_true] at h1 h2 ⊢
+    refine ⟨by simpa [SCfg.fnOk, SCfg.withPlan] using h1.1, ?_⟩
+    rcases h2 with h2 | h2
+    · exact Or.inl (by simpa [SCfg.withPlan] using h2)
+    · rcases h1.2 with h | h
+      · have : Eval.Plan.prunesFn (C.withPlan none).plan fn = false := by cases fn <;> rfl
+        rw [this] at h; cases h
+      · exact Or.inr (ih false h h2)
+  | assign _ _ e => rename_i d h1 h2; simp only [okStmt, keptStmt] at h1 h2 ⊢; exact hE e h1 h2
+  | assignExisting _ _ e => rename_i d h1 h2; simp only [okStmt, keptStmt] at h1 h2 ⊢; exact hE e h1 h2
+  | assignIndex t e =>
+    rename_i d h1 h2
+    simp only [okStmt, keptStmt, Bool.and_eq_true] at h1 h2 ⊢
+    exact ⟨⟨hE t h1.1.1 h2.1, hE e h1.1.2 h2.2⟩, by simpa [SCfg.withPlan] using h1.2⟩
+  | ifS c _ _ _ _ ih1 ih2 =>
+    rename_i d h1 h2
+    simp only [okStmt, keptStmt, Bool.and_eq_true] at h1 h2 ⊢
+    exact ⟨⟨hE c h1.1.1 h2.1.1, ih1 d h1.1.2 h2.1.2⟩, ih2 d h1.2 h2.2⟩
+  | loop c _ _ _ ih =>
+    rename_i d h1 h2
+    simp only [okStmt, keptStmt, Bool.and_eq_true] at h1 h2 ⊢
+    exact ⟨hE c h1.1 h2.1, ih true h1.2 h2.2⟩
+  | block _ _ _ ih => rename_i d h1 h2; simp only [okStmt, keptStmt] at h1 h2 ⊢; exact ih d h1 h2
+  | ret e =>
+    rename_i d h1 h2
+    cases e with
+    | none => simp [okStmt]
+    | some e => simp only [okStmt, keptStmt] at h1 h2 ⊢; exact hE e h1 h2
+  | brk => rename_i d h1 _; simpa [okStmt] using h1
+  | cont => rename_i d h1 _; simpa [okStmt] using h1
+  | expr e => rename_i d h1 h2; simp only [okStmt, keptStmt] at h1 h2 ⊢; exact hE e h1 h2
+  | mk _ _ ih => intro d h1 h2; simp only [okBlock, keptBlock] at h1 h2 ⊢; exact ih d h1 h2
+  | nil => simp [okStmts]
+  | cons _ _ ih1 ih2 =>
+    rename_i d h1 h2
+    simp only [okStmts, keptStmts, Bool.and_eq_true] at h1 h2 ⊢
+    exact ⟨ih1 d h1.1 h2.1, ih2 d h1.2 h2.2⟩
+  | none => simp [okOptBlock]
+  | some _ ih => rename_i d h1 h2; simp only [okOptBlock, keptOptBlock] at h1 h2 ⊢; exact ih d h1 h2
+
+/-- Without a plan nothing is removed. -/
+theorem kept_none : (∀ e, keptExpr none e = true) ∧ (∀ b, keptBlock none b = true) := by
+  have hp : ∀ fn, Eval.Plan.prunesFn none fn = false := by intro fn; cases fn <;> rfl
+  have hE : ∀ e : Expr, keptExpr none e = true := by
+    intro e
+    induction e using Expr.rec (motive_2 := fun es => keptExprs none es = true) with
+    | nil => simp [keptExprs]
+    | cons e es ih1 ih2 => simp [keptExprs, ih1, ih2]
+    | num => simp [keptExpr]
+    | bool => simp [keptExpr]
+    | null => simp [keptExpr]
+    | str => simp [keptExpr]
+    | var => simp [keptExpr]
+    | binary _ _ _ _ ih1 ih2 => simp [keptExpr, ih1, ih2]
+    | unary _ _ _ ih => simp [keptExpr, ih]
+    | array _ _ ih => simp [keptExpr, ih]
+    | index _ _ _ _ ih1 ih2 => simp [keptExpr, ih1, ih2]
+    | member _ _ _ _ ih => simp [keptExpr, ih]
+    | call callee args fn sp ih1 ih2 =>
+      cases callee with
+      | var => simp [keptExpr, ih2, hp]
+      | member => simp only [keptExpr] at ih1 ⊢; simp [ih1, ih2]
+      | _ => simp [keptExpr, ih2]
+  refine ⟨hE, ?_⟩
+  intro b
+  induction b using Block.rec (motive_1 := fun s => keptStmt none s = true)
+    (motive_4 := fun ss => keptStmts none ss = true)
+    (motive_3 := fun ob => keptOptBlock none ob = true) with
+  | fnDef _ _ _ _ _ _ _ ih => simp [keptStmt, ih]
+  | assign _ _ e => simp [keptStmt, hE e]
+  | assignExisting _ _ e => simp [keptStmt, hE e]
+  | assignIndex t e => simp [keptStmt, hE t, hE e]
+  | ifS c _ _ _ _ ih1 ih2 => simp [keptStmt, hE c, ih1, ih2]
+  | loop c _ _ _ ih => simp [keptStmt, hE c, ih]
+  | block _ _ _ ih => simp [keptStmt, ih]
+  | ret e => cases e with
+    | none => simp [keptStmt]
+    | some e => simp [keptStmt, hE e]
+  | brk => simp [keptStmt]
+  | cont => simp [keptStmt]
+  | expr e => simp [keptStmt, hE e]
+  | mk _ _ ih => simp [keptBlock, ih]
+  | nil => simp [keptStmts]
+  | cons _ _ ih1 ih2 => simp [keptStmts, ih1, ih2]
+  | none => simp [keptOptBlock]
+  | some _ ih => simp [keptOptBlock, ih]
 
 end NaijaVerif.Bridge
